@@ -8,3 +8,10 @@ Record scall := mkScall { sa_alpha : Q; sa_lambda : Q; sa_Q : list Q; sa_rew : l
                           sa_out : list (list Q) }.
 Definition sacheck (c : scall) : nat :=
   if qmeq (@sarsa_targets QN (sa_alpha c) (sa_lambda c) (sa_Q c) (sa_rew c)) (sa_out c) then 0%nat else 1%nat.
+
+(* whole calculate_SARSA calls: rows kept and targets, episodes of any length, optional single_sample_reward *)
+Record scall2 := mkScall2 { sb_alpha : Q; sb_lambda : Q; sb_Q : list Q; sb_rew : list (list Q); sb_single : option Q;
+                            sb_rows : nat; sb_out : list (list Q) }.
+Definition sacheck2 (c : scall2) : nat :=
+  let '(n, out) := @calc_sarsa QN (sb_alpha c) (sb_lambda c) (sb_Q c) (sb_rew c) (sb_single c) in
+  if Nat.eqb n (sb_rows c) && qmeq out (sb_out c) then 0%nat else 1%nat.
